@@ -512,7 +512,11 @@ func genCase13(c *Chooser) C13Case {
 	// wrote or edited by hand (the native format is meant to be editable):
 	// structurally valid hunks with arbitrary paths, context and metadata
 	if c.Chance(1, 6) {
-		cs.Disk = append(cs.Disk, DiskFault{After: np - 1, Kind: "overwrite", File: "p", Text: handWritten(c)})
+		text := handWritten(c)
+		if c.Chance(1, 2) {
+			text = handWrittenMerge(c)
+		}
+		cs.Disk = append(cs.Disk, DiskFault{After: np - 1, Kind: "overwrite", File: "p", Text: text})
 	}
 	// consumer
 	civ := iv
@@ -758,14 +762,21 @@ func handWritten(c *Chooser) string {
 	var sb strings.Builder
 	elems := []string{`"a"`, `"b"`, `"id"`, `0`, `1`, `2`, `-1`, `-3`, `1.5`, `1e30`, `{}`, `[]`, `{"id":1}`, `{"id":[1]}`, `[{"id":1}]`, `[1]`, `[[]]`, `""`, `true`, `null`}
 	vals := []string{`1`, `"x"`, `{}`, `[]`, `{"a":{"b":1}}`, `[1,2]`, `null`, `true`, `{"id":1,"a":2}`}
+	var prevPath []string
 	for h := 0; h < c.Range(1, 4); h++ {
 		if c.Chance(1, 3) {
 			sb.WriteString([]string{"^ {\"Merge\":true}\n", "^ {\"Merge\":false}\n", "^ {}\n", "^ {\"Merge\":1}\n"}[c.Pick(6, 2, 1, 1)])
 		}
 		var path []string
-		for d := 0; d < c.Int(4); d++ {
-			path = append(path, elems[c.Int(len(elems))])
+		if h > 0 && c.Chance(1, 3) {
+			// reach into what the previous hunk addressed
+			path = append(append(path, prevPath...), elems[c.Int(6)])
+		} else {
+			for d := 0; d < c.Int(4); d++ {
+				path = append(path, elems[c.Int(len(elems))])
+			}
 		}
+		prevPath = path
 		sb.WriteString("@ [" + strings.Join(path, ",") + "]\n")
 		if c.Chance(1, 3) {
 			sb.WriteString([]string{"[\n", "  " + vals[c.Int(len(vals))] + "\n"}[c.Int(2)])
